@@ -33,7 +33,10 @@ def strategy(tier):
 
     def one(name):
         return st.fixed_dictionaries({"recipe": st.just(name), "opts": RECIPES[name].opts(tier), "payload_seed": SEED,
-                                      "a": st.sampled_from(SCAL), "b": st.sampled_from(SCAL), "k": st.integers(1, 3)})
+                                      "a": st.sampled_from(SCAL), "b": st.sampled_from(SCAL), "k": st.integers(1, 3),
+                                      # split: w1 and w2 seed complementary subsets of the outputs (the others stay
+                                      # None), so that the combined seed has a different None-pattern than either part
+                                      "split": st.booleans()})
     return st.sampled_from(names).flatmap(one)
 
 
@@ -52,6 +55,10 @@ def dense_list(gs):
 def combine(a, w1, b, w2):
     if w1 is None and w2 is None:
         return None
+    if w1 is None:
+        w1, a = w2, 0.0
+    if w2 is None:
+        w2, b = w1, 0.0
     if adj.is_dyad(w1):
         return a * w1 + b * w2
     r = a * np.asarray(w1) + b * np.asarray(w2)
@@ -119,6 +126,12 @@ def check_case(case):
     w2 = b.seeds(rng, ys)
     if all(w is None for w in w1):
         return labels + ["no_seed"], V
+    live = [i for i, w in enumerate(w1) if w is not None]
+    if case.get("split") and len(live) >= 2:
+        first = set(live[::2])
+        w1 = [w if i in first else None for i, w in enumerate(w1)]
+        w2 = [w if (i in live and i not in first) else None for i, w in enumerate(w2)]
+        labels.append("split_seeds")
     if sum(np.size(adj.to_dense(w)) for w in w1 if w is not None) > 1:
         labels.append("independent_seeds")
 
